@@ -464,11 +464,22 @@ class C17(Machine):
             self._R.probe("embedded_graph_carries_node_attributes")
             self._live.set_node_attribute(
                 "station", np.arange(A.shape[0], dtype=float))
+            # ... and node weights of its own: an untouched part of the
+            # network that every in-place randomisation must leave alone
+            self._live_w = 1.0 + 0.25 * np.arange(A.shape[0])
+            self._live.node_weights = self._live_w.copy()
         return self._live
 
     def _consistent(self, net, M, step):
         """After an in-place randomisation the object's representations
         must agree with its adjacency matrix."""
+        if self._decorated and net is getattr(self, "_live", None):
+            w = np.asarray(net.node_weights)
+            if w.shape != self._live_w.shape or not np.array_equal(
+                    w, self._live_w):
+                self._bad("node-weights-changed",
+                          f"step {step}: the call changed the node weights "
+                          f"of the network: {w} instead of {self._live_w}")
         links = int(M.sum()) // 2
         got = sorted(tuple(sorted(e)) for e in net.graph.get_edgelist())
         want = sorted((int(i), int(j)) for i, j in np.argwhere(np.triu(M)))
